@@ -5,6 +5,7 @@
   the code on every case.
 -/
 import Carapace.Props.C01Fork
+import Carapace.Props.C01Flag
 
 namespace Carapace.Props.C01Fork
 open Carapace Carapace.Model Carapace.Spec Carapace.Spec.Pflag Carapace.Spec.PflagG
@@ -338,5 +339,70 @@ theorem traverseSlotG_posix (t : TTree) (h : TreeNoEqShort t) (fuel c : Nat) (ar
               have hc' := hnc fd hs
               simp only [hc', Bool.and_false, Bool.false_eq_true, if_false, parseG_posix _ (h c), flagOrPositional_embed]
               rfl
+
+/-! ### the slot theorems, about the model that is compared with the code
+
+`traverseSlotG` is what the driver evaluates on every generated case; on trees without fork features it is
+`traverseSlot` (above), and the parser specification `parseG` is `parse` (`parseG_posix`).  So the three slot
+theorems hold of the general model and the general specification as they stand. -/
+
+open Carapace.Props.C01 in
+/-- **C01, positional slot, over the general model and specification.** -/
+theorem C01_positional_lands_general {t : TTree} {c : Nat} {cs : TCmd} (hne : TreeNoEqShort t) (h : Stay t c cs) (fuel : Nat)
+    (ws : List Str) (hnc : NoChild t c ws) (w : Str) (hw : Str.hasPrefix w ['-'] = false) (k : Nat)
+    (hs : traverseSlotG (embedTree t) (fuel + 1) c ws w = .positional c k) :
+    ∀ w', Pflag.flagLike w' = false →
+      ∃ p', parseG (flagsAtG (embedTree t) ((embedTree t).size + 1) c) cs.interspersed (ws ++ [w']) = .ok p' ∧
+            p'.args[k]? = some w' ∧ p'.lenAtDash = none := by
+  rw [traverseSlotG_posix t hne] at hs
+  intro w' hw'
+  rw [size_embedTree, flagsAtG_embed, parseG_posix _ (hne c)]
+  exact C01_positional_lands h fuel ws hnc w hw k hs w' hw'
+
+open Carapace.Props.C01 in
+/-- **C01, slot after `--`, over the general model and specification.** -/
+theorem C01_dash_lands_general {t : TTree} {c : Nat} {cs : TCmd} (hne : TreeNoEqShort t) (h : Stay t c cs) (fuel : Nat)
+    (ws : List Str) (hnc : NoChild t c ws) (w : Str) (hw : Str.hasPrefix w ['-'] = false) (k : Nat)
+    (hs : traverseSlotG (embedTree t) (fuel + 1) c ws w = .dash c k)
+    (hnp : pendingFlag t c cs ws = false) :
+    ∀ w', ∃ p' n, parseG (flagsAtG (embedTree t) ((embedTree t).size + 1) c) cs.interspersed (ws ++ [w']) = .ok p' ∧
+            p'.lenAtDash = some n ∧ p'.args[n + k]? = some w' := by
+  rw [traverseSlotG_posix t hne] at hs
+  intro w'
+  rw [size_embedTree, flagsAtG_embed, parseG_posix _ (hne c)]
+  exact C01_dash_lands h fuel ws hnc w hw k hs hnp w'
+
+open Carapace.Props.C01 in
+/-- **C01, flag value slot, over the general model and specification.** -/
+theorem C01_flag_value_lands_general {t : TTree} {c : Nat} {cs : TCmd} (hne : TreeNoEqShort t) (h : Stay t c cs)
+    (hi : cs.interspersed = true) (hn : NamesOk (flagsAt t (t.size + 1) c)) (fuel : Nat) (ws : List Str)
+    (hnc : NoChild t c ws) (w name : Str)
+    (hs : traverseSlotG (embedTree t) (fuel + 1) c ws w = .flagValue c name) :
+    ∀ v, (∀ f ∈ flagsAt t (t.size + 1) c, f.name = name → Pflag.valueOk f v = true) →
+      ∃ p', parseG (flagsAtG (embedTree t) ((embedTree t).size + 1) c) true (ws ++ [v]) = .ok p' ∧
+            p'.sets.getLast? = some (name, v) := by
+  rw [traverseSlotG_posix t hne] at hs
+  intro v hv
+  rw [size_embedTree, flagsAtG_embed, parseG_posix _ (hne c)]
+  exact C01_flag_value_lands h hi hn fuel ws hnc w name hs v hv
+
+/-- the hypotheses are satisfiable: a one-command program with a string flag `--name` / `-n` -/
+def exTree : TTree := #[{ name := "root".toList, flags := [({ name := "name".toList, short := some 'n' }, false)] }]
+
+example : TreeNoEqShort exTree := by
+  intro c f hf
+  cases c with
+  | zero =>
+    have : flagsAt exTree (exTree.size + 1) 0 = [{ name := "name".toList, short := some 'n' }] := by decide
+    rw [this] at hf
+    simp at hf
+    subst hf
+    decide
+  | succ c =>
+    have : flagsAt exTree (exTree.size + 1) (c + 1) = [] := by
+      simp [flagsAt, exTree]
+    rw [this] at hf
+    simp at hf
+
 
 end Carapace.Props.C01Fork
